@@ -18,10 +18,31 @@ Definition NetInst (s0 : state) (n x : id) : Prop :=
 Definition Closed (s0 : state) (n : id) : Prop :=
   forall x e, NetInst s0 n x -> iref s0 x = Some e -> exists l, In l (kids s0 RLibs n) /\ In e (kids s0 RDefs l).
 
-Theorem clone_netlist_inv s0 n :
+(* what the proof knows about the result: sQ is the state before the final filter of the reference sets *)
+Record NetFacts (s0 : state) (n : id) (sF sQ : state) (M : memo) (n' : id) (libs' : list id) : Prop := mkNF {
+  nf_n' : n' = next s0;
+  nf_ry : RY s0 sQ M;
+  nf_root : In (n, n') M;
+  nf_kids : kids sF = kids sQ; nf_par : par sF = par sQ; nf_iref : iref sF = iref sQ; nf_ipins : ipins sF = ipins sQ;
+  nf_wpins : wpins sF = wpins sQ; nf_ipwire : ipwire sF = ipwire sQ; nf_kind : kind_of sF = kind_of sQ; nf_next : next sF = next sQ;
+  nf_drefs : forall y, drefs sF y = if memb y (flat_map (kids sQ RDefs) libs') then filter (mval M) (drefs sQ y) else drefs sQ y;
+  nf_klibs : forall y, kids sQ RLibs y = if Nat.eqb y n' then libs' else kids s0 RLibs y;
+  nf_plibs : forall y, par sQ RLibs y = if memb y libs' then Some n' else par s0 RLibs y;
+  nf_nd : NoDup libs';
+  nf_new : forall l', In l' libs' -> next s0 <= l';
+  nf_f2 : Forall2 (fun l l' => In (l, l') M /\ Forall2 (fun d d' => In (d, d') M) (kids s0 RDefs l) (kids sQ RDefs l')) (kids s0 RLibs n) libs';
+  nf_fx : forall x x', In (x, x') M -> kind_of s0 x = Some KInstance -> iref sQ x' = remap_ref M (iref s0 x);
+  nf_fd : forall d d', In (d, d') M -> kind_of s0 d = Some KDefinition -> FinD M sQ d' /\ In d' (flat_map (kids sQ RDefs) libs');
+  nf_hd : forall y, In y (flat_map (kids sQ RDefs) libs') -> exists d, In (d, y) M /\ kind_of s0 d = Some KDefinition;
+  nf_cl : forall x x' e, In (x, x') M -> kind_of s0 x = Some KInstance -> iref s0 x = Some e -> In e (map fst M) /\ kind_of s0 e = Some KDefinition;
+  nf_keys : forall x x', In (x, x') M -> x = n \/ In x (flat_map (lib_objects s0) (kids s0 RLibs n)) \/ top s0 n = Some x
+}.
+
+Lemma clone_netlist_facts s0 n :
   UF s0 -> StartOK s0 -> (forall x e, iref s0 x = Some e -> kind_of s0 e = Some KDefinition) ->
   kind_of s0 n = Some KNetlist -> (forall t, top s0 n = Some t -> kind_of s0 t = Some KInstance) -> Closed s0 n ->
-  snd (fst (clone_netlist s0 n)) = None -> Inv (fst (fst (clone_netlist s0 n))).
+  snd (fst (clone_netlist s0 n)) = None ->
+  exists sQ M libs', NetFacts s0 n (fst (fst (clone_netlist s0 n))) sQ M (snd (clone_netlist s0 n)) libs'.
 Proof.
   intros U0 HS HRD Hkn Htop Hcl. pose proof U0 as [I0 [T0 [F0 [FT0 K0]]]]. pose proof (inv_a _ I0) as I1.
   assert (Hn : n < next s0). { destruct (Nat.lt_ge_cases n (next s0)) as [H|H]; [exact H|]. rewrite (f_kind _ F0 n H) in Hkn. discriminate. }
@@ -145,57 +166,155 @@ Proof.
   assert (Hkeys : forall e, In e (flat_map (lib_objects s0) ls) -> In e (map fst M)).
   { intros e He. assert (H2 : In e (map fst m2)) by (apply Ky2; left; exact He).
     apply in_map_iff in H2 as [[a b] [E1 H2]]. cbn in E1. subst a. apply in_map_iff. exists (e, b). split; [reflexivity|apply Sb8; exact H2]. }
+  assert (EkdF : kind_of sF = kind_of sQ) by (rewrite (fe_kind _ _ FEF); apply (fx_kind _ _ FXR)).
+  assert (EnF : next sF = next sQ) by (rewrite (fe_next _ _ FEF); apply (fx_next _ _ FXR)).
+  exists sQ, M, libs'. cbn [snd]. constructor; try assumption.
+  - apply Sb8. exact Hnn.
+  - intro y. rewrite (fe_drefs _ _ FEF). destruct (memb y (flat_map (kids sQ RDefs) libs')) eqn:Em.
+    + apply memb_In in Em. apply DRin. exact Em.
+    + apply memb_false in Em. apply DRout. exact Em.
+  - intros l' Hl'. destruct (Hlibs sQ M YQ Sb8) as [_ [_ C]]. destruct (C l' Hl'). lia.
+  - rewrite KQ, KP. exact F2'.
+  - (* every copied instance has its final reference *)
+    intros x x' Hxx Hkx. rewrite IrQ.
+    assert (FXx : FinX s0 M sP x'); [|apply (FXx x Hxx Hkx)].
+    destruct (in_memo_dec m2 x x') as [Hi|Hno].
+    + destruct (Hcls x x' Hi) as [->|Hx]; [congruence|].
+      destruct (libs_objects_inst s0 T0 n x Hx Hkx) as [l [d [Hl [Hd Hc]]]].
+      destruct (forall2_in_r _ _ _ F2' l Hl) as [l' [Hl' [_ B]]]. destruct (forall2_in_r _ _ _ B d Hd) as [d' [Hd' Hdd]].
+      pose proof (rx_di _ _ _ (ry_rx _ _ _ Y8') d d' Hdd (proj1 (T0 _ _ _ Hd))) as DI.
+      destruct (di_children _ _ _ _ _ DI x Hc) as [p' [Hxp Hp']].
+      assert (p' = x') by (apply (memo_fun M x p' x' (st_fun _ _ _ ST8)); assumption). subst p'.
+      apply (proj2 (FA l' d' Hl' Hd') x' Hp').
+    + destruct (New8 x x' Hxx Hno) as [_ Hi8]. apply PX. intros x2 Hx2 Hk2.
+      assert (x2 = x) by (apply (memo_inj M x2 x x' (st_inj _ _ _ ST8)); assumption). subst x2.
+      rewrite (fe_iref _ _ F88). exact Hi8.
+  - (* reference sets of the copied definitions *)
+    intros d d' Hdd Hkd.
+    destruct (in_memo_dec m2 d d') as [Hi|Hno]; [|destruct (New8 d d' Hdd Hno) as [Ht _]; rewrite (Htop d Ht) in Hkd; discriminate].
+    destruct (Hcls d d' Hi) as [->|Hx]; [congruence|].
+    destruct (libs_objects_def s0 T0 n d Hx Hkd) as [l [Hl Hd]].
+    destruct (forall2_in_r _ _ _ F2' l Hl) as [l' [Hl' [_ B]]]. destruct (forall2_in_r _ _ _ B d Hd) as [d2 [Hd2 Hdd2]].
+    assert (d2 = d') by (apply (memo_fun M d d2 d' (st_fun _ _ _ ST8)); assumption). subst d2.
+    split.
+    + unfold FinD. rewrite DQ. apply (proj1 (FA l' d' Hl' Hd2)).
+    + apply in_flat_map. exists l'. split; [exact Hl'|]. rewrite KQ, KP. exact Hd2.
+  - intros y Hy. apply in_flat_map in Hy as [l' [Hl' Hy]]. rewrite KQ, KP in Hy.
+    destruct (forall2_in_l _ _ _ F2' l' Hl') as [l [Hl [_ B]]]. destruct (forall2_in_l _ _ _ B y Hy) as [d [Hd Hdy]].
+    exists d. split; [exact Hdy|apply (proj1 (T0 _ _ _ Hd))].
+  - (* closedness *)
+    intros x x' e Hxx Hkx He.
+    assert (HN : NetInst s0 n x).
+    { destruct (in_memo_dec m2 x x') as [Hi|Hno]; [|right; apply (New8 x x' Hxx Hno)].
+      destruct (Hcls x x' Hi) as [->|Hx]; [congruence|]. left. apply (libs_objects_inst s0 T0 n x Hx Hkx). }
+    destruct (Hcl x e HN He) as [l [Hl Hd]]. split; [|apply (proj1 (T0 _ _ _ Hd))].
+    apply Hkeys. apply (libs_objects_of_def s0 n l e Hl Hd).
+  - intros x x' Hxx. destruct (in_memo_dec m2 x x') as [Hi|Hno]; [|right; right; apply (New8 x x' Hxx Hno)].
+    destruct (Hcls x x' Hi) as [->|Hx]; [left; reflexivity|right; left; exact Hx].
+Qed.
+
+Theorem clone_netlist_inv s0 n :
+  UF s0 -> StartOK s0 -> (forall x e, iref s0 x = Some e -> kind_of s0 e = Some KDefinition) ->
+  kind_of s0 n = Some KNetlist -> (forall t, top s0 n = Some t -> kind_of s0 t = Some KInstance) -> Closed s0 n ->
+  snd (fst (clone_netlist s0 n)) = None -> Inv (fst (fst (clone_netlist s0 n))).
+Proof.
+  intros U0 HS HRD Hkn Htop Hcl Hok.
+  destruct (clone_netlist_facts s0 n U0 HS HRD Hkn Htop Hcl Hok) as [sQ [M [libs' NF]]].
+  set (sF := fst (fst (clone_netlist s0 n))) in *. set (n' := snd (clone_netlist s0 n)) in *.
+  pose proof (rx_ri _ _ _ (ry_rx _ _ _ (nf_ry _ _ _ _ _ _ _ NF))) as RQ.
   constructor.
-  - (* containment *)
-    apply (final_inv1a s0 sF n' libs' U0).
-    + intros r Hr. apply (inv1ar_same sQ sF r EkF EpF). apply (ri_1a _ _ _ RQ r Hr).
-    + intro y. rewrite EkF. apply HKQ.
-    + intro y. rewrite EpF. apply HPQ.
-    + lia.
-    + intros l' Hl'. destruct (Hlibs sQ M YQ Sb8) as [_ [_ C]]. destruct (C l' Hl'). lia.
-    + exact Nd2.
-  - (* references *)
-    apply (final_inv2a s0 sQ sF M (flat_map (kids sQ RDefs) libs') U0 YQ).
-    + (* every copied instance has its final reference *)
-      intros x x' Hxx Hkx. rewrite IrQ.
-      assert (FXx : FinX s0 M sP x'); [|apply (FXx x Hxx Hkx)].
-      destruct (in_memo_dec m2 x x') as [Hi|Hno].
-      * destruct (Hcls x x' Hi) as [->|Hx]; [congruence|].
-        destruct (libs_objects_inst s0 T0 n x Hx Hkx) as [l [d [Hl [Hd Hc]]]].
-        destruct (forall2_in_r _ _ _ F2' l Hl) as [l' [Hl' [_ B]]]. destruct (forall2_in_r _ _ _ B d Hd) as [d' [Hd' Hdd]].
-        pose proof (rx_di _ _ _ (ry_rx _ _ _ Y8') d d' Hdd (proj1 (T0 _ _ _ Hd))) as DI.
-        destruct (di_children _ _ _ _ _ DI x Hc) as [p' [Hxp Hp']].
-        assert (p' = x') by (apply (memo_fun M x p' x' (st_fun _ _ _ ST8)); assumption). subst p'.
-        apply (proj2 (FA l' d' Hl' Hd') x' Hp').
-      * destruct (New8 x x' Hxx Hno) as [_ Hi8]. apply PX. intros x2 Hx2 Hk2.
-        assert (x2 = x) by (apply (memo_inj M x2 x x' (st_inj _ _ _ ST8)); assumption). subst x2.
-        rewrite (fe_iref _ _ F88). exact Hi8.
-    + (* reference sets of the copied definitions *)
-      intros d d' Hdd Hkd.
-      destruct (in_memo_dec m2 d d') as [Hi|Hno]; [|destruct (New8 d d' Hdd Hno) as [Ht _]; rewrite (Htop d Ht) in Hkd; discriminate].
-      destruct (Hcls d d' Hi) as [->|Hx]; [congruence|].
-      destruct (libs_objects_def s0 T0 n d Hx Hkd) as [l [Hl Hd]].
-      destruct (forall2_in_r _ _ _ F2' l Hl) as [l' [Hl' [_ B]]]. destruct (forall2_in_r _ _ _ B d Hd) as [d2 [Hd2 Hdd2]].
-      assert (d2 = d') by (apply (memo_fun M d d2 d' (st_fun _ _ _ ST8)); assumption). subst d2.
-      split.
-      * unfold FinD. rewrite DQ. apply (proj1 (FA l' d' Hl' Hd2)).
-      * apply in_flat_map. exists l'. split; [exact Hl'|]. rewrite KQ, KP. exact Hd2.
-    + intros y Hy. apply in_flat_map in Hy as [l' [Hl' Hy]]. rewrite KQ, KP in Hy.
-      destruct (forall2_in_l _ _ _ F2' l' Hl') as [l [Hl [_ B]]]. destruct (forall2_in_l _ _ _ B y Hy) as [d [Hd Hdy]].
-      exists d. split; [exact Hdy|apply (proj1 (T0 _ _ _ Hd))].
-    + (* closedness *)
-      intros x x' e Hxx Hkx He.
-      assert (HN : NetInst s0 n x).
-      { destruct (in_memo_dec m2 x x') as [Hi|Hno]; [|right; apply (New8 x x' Hxx Hno)].
-        destruct (Hcls x x' Hi) as [->|Hx]; [congruence|]. left. apply (libs_objects_inst s0 T0 n x Hx Hkx). }
-      destruct (Hcl x e HN He) as [l [Hl Hd]]. split; [|apply (proj1 (T0 _ _ _ Hd))].
-      apply Hkeys. apply (libs_objects_of_def s0 n l e Hl Hd).
-    + exact ErF.
-    + intro y. rewrite (fe_drefs _ _ FEF). destruct (memb y (flat_map (kids sQ RDefs) libs')) eqn:Em.
-      * apply memb_In in Em. apply DRin. exact Em.
-      * apply memb_false in Em. apply DRout. exact Em.
-  - apply (invp_same sQ sF (ri_p _ _ _ RQ)); [intro q; apply pw_ext; assumption|intro w; rewrite EwF; reflexivity].
-  - apply (invk_same sQ sF (ri_k _ _ _ RQ)); [intro x; unfold keys; rewrite EiF; reflexivity|exact ErF|intro x; rewrite EpF; reflexivity|intro x; rewrite EpF; reflexivity].
+  - apply (final_inv1a s0 sF n' libs' U0).
+    + intros r Hr. apply (inv1ar_same sQ sF r (nf_kids _ _ _ _ _ _ _ NF) (nf_par _ _ _ _ _ _ _ NF)). apply (ri_1a _ _ _ RQ r Hr).
+    + intro y. rewrite (nf_kids _ _ _ _ _ _ _ NF). apply (nf_klibs _ _ _ _ _ _ _ NF).
+    + intro y. rewrite (nf_par _ _ _ _ _ _ _ NF). apply (nf_plibs _ _ _ _ _ _ _ NF).
+    + rewrite (nf_n' _ _ _ _ _ _ _ NF). apply Nat.le_refl.
+    + apply (nf_new _ _ _ _ _ _ _ NF).
+    + apply (nf_nd _ _ _ _ _ _ _ NF).
+  - apply (final_inv2a s0 sQ sF M (flat_map (kids sQ RDefs) libs') U0 (nf_ry _ _ _ _ _ _ _ NF)).
+    + apply (nf_fx _ _ _ _ _ _ _ NF).
+    + apply (nf_fd _ _ _ _ _ _ _ NF).
+    + apply (nf_hd _ _ _ _ _ _ _ NF).
+    + apply (nf_cl _ _ _ _ _ _ _ NF).
+    + apply (nf_iref _ _ _ _ _ _ _ NF).
+    + apply (nf_drefs _ _ _ _ _ _ _ NF).
+  - apply (invp_same sQ sF (ri_p _ _ _ RQ)); [intro q; apply pw_ext; [apply (nf_ipwire _ _ _ _ _ _ _ NF)|apply (nf_ipins _ _ _ _ _ _ _ NF)]|intro w; rewrite (nf_wpins _ _ _ _ _ _ _ NF); reflexivity].
+  - apply (invk_same sQ sF (ri_k _ _ _ RQ)); [intro x; unfold keys; rewrite (nf_ipins _ _ _ _ _ _ _ NF); reflexivity|apply (nf_iref _ _ _ _ _ _ _ NF)|intro x; rewrite (nf_par _ _ _ _ _ _ _ NF); reflexivity|intro x; rewrite (nf_par _ _ _ _ _ _ _ NF); reflexivity].
+Qed.
+
+(* ---- the copy has the structure of the original ---- *)
+Definition img (M : memo) (a b : id) : Prop := In (a, b) M.
+
+Record NetStruct (s0 : state) (n : id) (sF : state) (n' : id) (M : memo) : Prop := mkNS {
+  ns_fun : NoDup (map fst M);
+  ns_inj : NoDup (map snd M);
+  ns_rng : forall a b, img M a b -> a < next s0 /\ next s0 <= b /\ kind_of sF b = kind_of s0 a;
+  ns_root : img M n n';
+  ns_libs : Forall2 (img M) (kids s0 RLibs n) (kids sF RLibs n');
+  ns_defs : forall l l', img M l l' -> kind_of s0 l = Some KLibrary -> Forall2 (img M) (kids s0 RDefs l) (kids sF RDefs l');
+  ns_ports : forall d d', img M d d' -> kind_of s0 d = Some KDefinition -> Forall2 (img M) (kids s0 RPorts d) (kids sF RPorts d');
+  ns_cables : forall d d', img M d d' -> kind_of s0 d = Some KDefinition -> Forall2 (img M) (kids s0 RCables d) (kids sF RCables d');
+  ns_children : forall d d', img M d d' -> kind_of s0 d = Some KDefinition -> Forall2 (img M) (kids s0 RChildren d) (kids sF RChildren d');
+  ns_pins : forall p p', img M p p' -> kind_of s0 p = Some KPort -> Forall2 (img M) (kids s0 RPins p) (kids sF RPins p');
+  ns_wires : forall c c', img M c c' -> kind_of s0 c = Some KCable -> Forall2 (img M) (kids s0 RWires c) (kids sF RWires c');
+  ns_ref : forall x x', img M x x' -> kind_of s0 x = Some KInstance ->
+             iref sF x' = match iref s0 x with Some e => mget M e | None => None end;
+  ns_refs : forall d d', img M d d' -> kind_of s0 d = Some KDefinition ->
+             forall x', In x' (drefs sF d') <-> exists x, In x (drefs s0 d) /\ img M x x'
+}.
+
+Theorem clone_netlist_struct s0 n :
+  UF s0 -> StartOK s0 -> (forall x e, iref s0 x = Some e -> kind_of s0 e = Some KDefinition) ->
+  kind_of s0 n = Some KNetlist -> (forall t, top s0 n = Some t -> kind_of s0 t = Some KInstance) -> Closed s0 n ->
+  snd (fst (clone_netlist s0 n)) = None ->
+  exists M, NetStruct s0 n (fst (fst (clone_netlist s0 n))) (snd (clone_netlist s0 n)) M.
+Proof.
+  intros U0 HS HRD Hkn Htop Hcl Hok. pose proof U0 as [I0 [T0 [F0 [FT0 K0]]]]. pose proof (inv_a _ I0) as I1.
+  pose proof (clone_netlist_inv s0 n U0 HS HRD Hkn Htop Hcl Hok) as HInv.
+  destruct (clone_netlist_facts s0 n U0 HS HRD Hkn Htop Hcl Hok) as [sQ [M [libs' NF]]].
+  set (sF := fst (fst (clone_netlist s0 n))) in *. set (n' := snd (clone_netlist s0 n)) in *.
+  pose proof (nf_ry _ _ _ _ _ _ _ NF) as Y. pose proof (ry_rx _ _ _ Y) as X. pose proof (rx_ri _ _ _ X) as R. pose proof (ri_st _ _ _ R) as T.
+  pose proof (nf_kids _ _ _ _ _ _ _ NF) as Ek. pose proof (nf_f2 _ _ _ _ _ _ _ NF) as F2.
+  (* the objects of the netlist that carry containers *)
+  assert (Hobj : forall x x', In (x, x') M -> kind_of s0 x <> Some KNetlist -> kind_of s0 x <> Some KInstance ->
+            In x (flat_map (lib_objects s0) (kids s0 RLibs n))).
+  { intros x x' H K1 K2. destruct (nf_keys _ _ _ _ _ _ _ NF x x' H) as [->|[Hx|Ht]]; [contradiction|exact Hx|]. exfalso. apply K2. apply (Htop x Ht). }
+  assert (Hdef : forall d d', In (d, d') M -> kind_of s0 d = Some KDefinition -> DefImg s0 d d' sQ M) by (intros d d' H Hk; apply (rx_di _ _ _ X d d' H Hk)).
+  assert (Hdd : forall l d, In l (kids s0 RLibs n) -> In d (kids s0 RDefs l) -> exists d', In (d, d') M).
+  { intros l d Hl Hd. destruct (forall2_in_r _ _ _ F2 l Hl) as [l' [_ [_ B]]]. destruct (forall2_in_r _ _ _ B d Hd) as [d' [_ H]]. exists d'. exact H. }
+  exists M. constructor.
+  - apply (st_fun _ _ _ T).
+  - apply (st_inj _ _ _ T).
+  - intros a b H. destruct (st_rng _ _ _ T a b H) as [A [B _]]. split; [exact A|]. split; [exact B|].
+    rewrite (nf_kind _ _ _ _ _ _ _ NF). apply (st_kind _ _ _ T a b H).
+  - apply (nf_root _ _ _ _ _ _ _ NF).
+  - rewrite Ek, (nf_klibs _ _ _ _ _ _ _ NF), Nat.eqb_refl. revert F2. apply forall2_mono. intros a b [H _]. exact H.
+  - intros l l' H Hk.
+    assert (Hl : In l (kids s0 RLibs n)) by (apply (libs_objects_lib s0 T0 n l); [apply (Hobj l l' H); rewrite Hk; discriminate|exact Hk]).
+    destruct (forall2_in_r _ _ _ F2 l Hl) as [l2 [_ [Hll B]]].
+    assert (l2 = l') by (apply (memo_fun M l l2 l' (st_fun _ _ _ T)); assumption). subst l2. rewrite Ek. exact B.
+  - intros d d' H Hk. rewrite Ek. apply (di_ports_ord _ _ _ _ _ (Hdef d d' H Hk)).
+  - intros d d' H Hk. rewrite Ek. apply (di_cables_ord _ _ _ _ _ (Hdef d d' H Hk)).
+  - intros d d' H Hk. rewrite Ek. apply (di_children_ord _ _ _ _ _ (Hdef d d' H Hk)).
+  - intros p p' H Hk.
+    destruct (libs_objects_bundle s0 T0 n p RPorts KPort (or_introl (conj eq_refl eq_refl)) (Hobj p p' H ltac:(rewrite Hk; discriminate) ltac:(rewrite Hk; discriminate)) Hk) as [l [d [Hl [Hd Hp]]]].
+    destruct (Hdd l d Hl Hd) as [d' Hdd']. destruct (di_ports _ _ _ _ _ (Hdef d d' Hdd' (proj1 (T0 _ _ _ Hd))) p Hp) as [p2 [Hpp [_ [_ [_ O]]]]].
+    assert (p2 = p') by (apply (memo_fun M p p2 p' (st_fun _ _ _ T)); assumption). subst p2. rewrite Ek. exact O.
+  - intros p p' H Hk.
+    destruct (libs_objects_bundle s0 T0 n p RCables KCable (or_intror (conj eq_refl eq_refl)) (Hobj p p' H ltac:(rewrite Hk; discriminate) ltac:(rewrite Hk; discriminate)) Hk) as [l [d [Hl [Hd Hp]]]].
+    destruct (Hdd l d Hl Hd) as [d' Hdd']. destruct (di_cables _ _ _ _ _ (Hdef d d' Hdd' (proj1 (T0 _ _ _ Hd))) p Hp) as [p2 [Hpp [_ [_ [_ O]]]]].
+    assert (p2 = p') by (apply (memo_fun M p p2 p' (st_fun _ _ _ T)); assumption). subst p2. rewrite Ek. exact O.
+  - intros x x' H Hk. rewrite (nf_iref _ _ _ _ _ _ _ NF), (nf_fx _ _ _ _ _ _ _ NF x x' H Hk).
+    destruct (iref s0 x) as [e|] eqn:Er; [|reflexivity]. cbn.
+    destruct (nf_cl _ _ _ _ _ _ _ NF x x' e H Hk Er) as [He _]. apply assoc_In_fst in He as [e' He']. fold (mget M e) in He'. rewrite He'. reflexivity.
+  - intros d d' H Hk x'. destruct (nf_fd _ _ _ _ _ _ _ NF d d' H Hk) as [[Hnd Hnk] HinD].
+    rewrite (nf_drefs _ _ _ _ _ _ _ NF). apply memb_In in HinD. rewrite HinD. rewrite filter_In. split.
+    + intros [Hin Hmv]. apply mval_true in Hmv as [a Ha]. destruct (st_rng _ _ _ T a x' Ha) as [_ [Hn1 _]].
+      destruct (ry_d1 _ _ _ Y d d' H Hk x' Hin) as [r [Hr [->|Hrn]]]; [|exists r; split; assumption].
+      exfalso. apply (i2_ref _ (inv_r _ I0)) in Hr. destruct (Nat.lt_ge_cases r (next s0)) as [Hl|Hg]; [lia|]. rewrite (f_iref _ F0 r Hg) in Hr. discriminate.
+    + intros [x [Hx Hxx]]. split; [|apply mval_true; exists x; exact Hxx].
+      destruct (ry_d2 _ _ _ Y d d' H Hk x Hx) as [Hin|[n2 [Hxn2 Hin]]].
+      * exfalso. apply (Hnk x Hin). apply in_map_iff. exists (x, x'). split; [reflexivity|exact Hxx].
+      * assert (n2 = x') by (apply (memo_fun M x n2 x' (st_fun _ _ _ T)); assumption). subst n2. exact Hin.
 Qed.
 
 (* a decidable form of the closedness hypothesis *)
@@ -225,4 +344,13 @@ Theorem clone_netlist_reachable_inv ops n :
 Proof.
   cbn zeta. intros Hk Hc Hok. destruct (reachable_refd_topk ops) as [HD HT].
   apply clone_netlist_inv; [apply reachable_uf|apply reachable_startok|exact HD|exact Hk|intros t Ht; apply (HT n t Ht)|exact Hc|exact Hok].
+Qed.
+
+Theorem clone_netlist_reachable_struct ops n :
+  let s := run ops init in
+  kind_of s n = Some KNetlist -> Closed s n -> snd (fst (clone_netlist s n)) = None ->
+  exists M, NetStruct s n (fst (fst (clone_netlist s n))) (snd (clone_netlist s n)) M.
+Proof.
+  cbn zeta. intros Hk Hc Hok. destruct (reachable_refd_topk ops) as [HD HT].
+  apply clone_netlist_struct; [apply reachable_uf|apply reachable_startok|exact HD|exact Hk|intros t Ht; apply (HT n t Ht)|exact Hc|exact Hok].
 Qed.
